@@ -291,13 +291,27 @@ class C20(Prop):
         yield dict(b1, kind="cart", dims=[1], quat=tiny(rng.choice([10 ** 6, 4 * 10 ** 6])),
                    shift=[[0, 1]] * 3)
 
+    @staticmethod
+    def _conditioned(case):
+        """A grid of size s translated by t has node coordinates with relative precision
+        2^-52 * t / s; small grids (node_scale) therefore only get translations of their own
+        size, so that directions stay resolved far below the comparison band."""
+        sc = case.get("node_scale")
+        if sc:
+            j = int(round(-np.log2(sc)))
+            for key in ("shift", "pre_shift"):
+                if key in case:
+                    case[key] = [[(a % 25) - 12 if abs(a) > 12 * b else a, b * 2 ** j]
+                                 for a, b in case[key]]
+        return case
+
     def generate(self, rng, n, tier):
         k = 0
         for case in list(self._directed(rng)) + list(self._directed2(rng)):
             k += 1
-            yield case
+            yield self._conditioned(case)
         for case in self._generate(rng, max(0, n - k), tier):
-            yield case
+            yield self._conditioned(case)
 
     def _generate(self, rng, n, tier):
         big = tier != "quick"
